@@ -234,7 +234,7 @@ func c04InputsKept(c *core.Ctx) {
 // than the presentation the two results differ by up to a unit.
 func c04InputsRoundedInPlace(c *core.Ctx) {
 	p := c.P
-	c.Rule("C04-R10", "input amounts are not rounded in place after having been summed at full precision", 4)
+	c.Rule("C04-R10", "input amounts are not rounded in place after having been summed at full precision", 0)
 	type site struct {
 		fd  *core.FuncDecl
 		as  *ast.AssignStmt
